@@ -144,7 +144,7 @@ func checkC07(rc *RunCtx, sc *C1, out *C1Outcome) {
 		}
 		return
 	}
-	if out.Resp == nil {
+	if isNilResponse(out.Resp) {
 		rc.Violate("nil_response", base, "Do returned (nil, nil)")
 		return
 	}
